@@ -46,6 +46,10 @@ def may_raise(ev, interp, path):
             if t is None or t in ("E:Future",) or (t.startswith("C:") and t.endswith(":OutputFuture")):
                 # a stdlib / output future somebody else may have cancelled
                 if not (isinstance(r, tuple) and r[0] in ("new", "extnew")):
+                    if f[2] == "set_exception_info" and (t is None or t == "E:Future"):
+                        # Python 3's stdlib Future has no set_exception_info: the py2-compat call fails with
+                        # AttributeError and the fallback that follows is what really runs
+                        return ["InvalidStateError", "AttributeError"]
                     return ["InvalidStateError"]
     return []
 
